@@ -123,6 +123,17 @@ def check(ctx):
         e_ = Prov(fu[0]).local(0)
         oku = e_[0] == "agg" and e_[2] == "I64"
     ctx.require(oku, "R-SIBLING", "map-key:literal-index", "a literal index becomes I64 (like a stored non-negative key)", "From<u32> for StreamMapKey no longer builds I64")
+    # a numeric accessor is an index only if it IS a non-negative integer that fits u32: as_u64 then u32::try_from,
+    # nothing else (no float route, no cast that truncates or saturates)
+    ctx.clause("R-FLOW try_number_to_u32 = as_u64().and_then(u32::try_from).ok_or(IndexAccessNotU32), no float conversion or numeric cast")
+    tn = F.fn("lambda_applier::utils::try_number_to_u32")
+    fam_calls = [c for f_, p_ in lib.family(F, tn) for c in f_.calls]
+    names = [c.path for c in fam_calls]
+    casts = [(s_["rv"]["from"], s_["rv"]["to"]) for f_, p_ in lib.family(F, tn) for bi, si, s_ in f_.stmts() if s_["rv"]["k"] == "cast" and s_["rv"]["kind"] in ("IntToInt", "FloatToInt", "IntToFloat", "FloatToFloat")]
+    okn = any(n.endswith("Number::as_u64") for n in names) and any("TryFrom" in n and n.endswith("try_from") for n in names) and \
+        not any(n.endswith(("Number::as_f64", "Number::as_i64")) for n in names) and not casts
+    ctx.require(okn, "R-FLOW", "index:number-to-u32", "as_u64 + u32::try_from only", "try_number_to_u32 now uses %s and casts %s: a fractional or negative number can be accepted as an index"
+                % (sorted({n.split("::")[-1] for n in names if "Number::as_" in n}), casts))
     fl = F.fn("lambda_applier::applier::select_by_functor_from_scalar")
     flp = Prov(fl)
     names = [c.path for c in fl.calls]
